@@ -997,7 +997,7 @@ impl Check for C39 {
     fn max_aborted_pct(&self) -> u64 {
         // the inputs of this check are hostile documents: the unchanged tree aborts on many of them
         // (C15/C17 report that); what decides C39 are its required observations
-        60
+        90
     }
     fn in_panic_watch(&self) -> bool {
         false
@@ -1006,7 +1006,7 @@ impl Check for C39 {
         panic_sig_fn(text)
     }
     fn cases(&self, tier: Tier) -> u64 {
-        tier.pick(480, 40_000)
+        tier.pick(960, 80_000)
     }
     fn budget_s(&self, tier: Tier) -> u64 {
         tier.pick(40, 600)
@@ -1023,7 +1023,7 @@ impl Check for C39 {
     fn run_case(&self, cx: &mut Ctx, _case: u64, rng: &mut Rng) {
         let enc = enc_for(rng);
         let mut w = World::new(rng, 2, enc, Profile::contention());
-        w.run(rng, rng.clone().range(3, cx.tier.pick(25, 60)));
+        w.run(rng, rng.clone().range(3, cx.tier.pick(25, 40)));
         let mut m = w.merged();
         let plain = m.save_nocompress();
         let calls0 = hexane::verif_hooks::unchecked_calls();
@@ -1076,7 +1076,8 @@ impl Check for C39 {
             }
             true
         };
-        for k in 0..cx.tier.pick(60, 100) {
+        // few hostile inputs per case: a worker death (allocation cap) on one of them costs only this case
+        for k in 0..30 {
             let bad = *rng.pick(&bad_seqs);
             match k % 4 {
                 0 | 1 => {
